@@ -991,8 +991,6 @@ func (c *Ctx) typeAssert(x *ssa.TypeAssert, st *State) {
 
 // ---------------------------------------------------------------- maps (uninterpreted unless modelled)
 
-func (c *Ctx) mapInit(x *ssa.MakeMap, st *State)     {}
-func (c *Ctx) mapUpdate(x *ssa.MapUpdate, st *State) { c.drop("map-update") }
 
 func (c *Ctx) lookupInstr(x *ssa.Lookup, st *State) {
 	if isString(x.X.Type()) {
@@ -1002,6 +1000,10 @@ func (c *Ctx) lookupInstr(x *ssa.Lookup, st *State) {
 		v := &Val{K: VScalar, T: x.Type(), S: sApp(c.strByteFn(), base.S, idx)}
 		c.assumeTypeInv(v)
 		c.set(x, v)
+		return
+	}
+	if _, ok := x.X.Type().Underlying().(*types.Map); ok {
+		c.mapLookup(x, st)
 		return
 	}
 	c.drop("map-lookup")
